@@ -16,7 +16,10 @@ import np2common as n2
 def scenarios(ctx):
     scs = []
     seed = ctx.seed * 100000 + 5000
-    lens = [2999, 4037, 7229] if ctx.quick else [1201, 2999, 3613, 4037, 5003, 7229, 9001]
+    lens = [2999, 4037, 7229, 3606, 1825] if ctx.quick else [1201, 2999, 3613, 4037, 5003, 7229, 9001]
+    if not ctx.quick:
+        lens += [3600 + r for r in range(12)]                                  # every residue of the length modulo 12
+        lens += sorted({w + k * (w - 576) + d for w in (1200, 2400) for k in (1, 2, 3) for d in (-1, 0, 1)})   # around whole strides
     ws = [1200, 2400, 3612, 60000]
     k = 0
     for ns in lens:
